@@ -47,6 +47,20 @@ type Config struct {
 	// BaseDenom: the module's base denomination parameter ("" = "stake", the only coin that exists in
 	// the harness's bank); changed only by a governance parameter change during the history
 	BaseDenom string `json:"base_denom,omitempty"`
+	// ExchangeRate: when set, the host registers the exchange-rate service the module consults for
+	// prices quoted in another token than the base denomination; it answers every pair with this rate
+	ExchangeRate string `json:"exchange_rate,omitempty"`
+}
+
+// harnessTokens is the token registry of the emulated chain: two tokens, each its own minimum
+// unit ("stake", which every account of the harness holds, and "point", which nobody holds).
+type harnessTokens struct{}
+
+func (harnessTokens) GetToken(ctx sdk.Context, denom string) (types.TokenI, error) {
+	if denom == "stake" || denom == "point" {
+		return types.MockToken{Symbol: denom, MinUnit: denom, Scale: 0}, nil
+	}
+	return nil, fmt.Errorf("token %s does not exist", denom)
 }
 
 func (c Config) baseDenom() string {
@@ -150,7 +164,7 @@ func NewWorld(cfg Config) *World {
 	cctx, _ := base.CacheContext()
 	w := &World{app: app, cfg: cfg}
 	w.k = keeper.NewKeeper(app.AppCodec(), app.GetKey(types.StoreKey), app.AccountKeeper, app.BankKeeper,
-		keeper.MockTokenKeeper{}, app.GetSubspace(types.ModuleName), authtypes.FeeCollectorName)
+		harnessTokens{}, app.GetSubspace(types.ModuleName), authtypes.FeeCollectorName)
 	w.handler = service.NewHandler(w.k)
 	w.ctx = cctx.WithBlockHeight(1).WithBlockTime(time.Unix(0, StartTimeNs).UTC())
 	w.DepositAcc = hx(app.AccountKeeper.GetModuleAddress(types.DepositAccName))
@@ -189,6 +203,17 @@ func NewWorld(cfg Config) *World {
 		panic(err)
 	}
 
+	if cfg.ExchangeRate != "" {
+		rate := cfg.ExchangeRate
+		if err := w.k.RegisterModuleService(types.RegisterModuleName, &types.ModuleService{
+			ServiceName: types.OraclePriceServiceName, Provider: types.OraclePriceServiceProvider,
+			ReuquestService: func(ctx sdk.Context, input string) (string, string) {
+				return `{"code":200,"message":""}`, `{"header":{},"body":{"rate":"` + rate + `"}}`
+			},
+		}); err != nil {
+			panic(err)
+		}
+	}
 	if ms := cfg.ModSvc; ms != nil {
 		prov := addr(ms.Provider)
 		if err := w.k.RegisterModuleService(ModSvcMod, &types.ModuleService{
